@@ -244,7 +244,7 @@ Definition plan (e : list Z) : P :=
           withs (fun s _ => match kp s with KNow => act AK | _ => ret end) ;;
           withs (fun s _ => match kp s with KArm => act AK | _ => ret end) ;;
           withs (fun s _ => match kp s with
-                            | KHandle => guard (Bool.eqb (zb val) (hnd_some (hnd s))) ;; act AK
+                            | KHandle => guard (negb (zb val)) ;; act AK     (* the old handle is null *)
                             | _ => fail end)
         else if isu a x0 then
           match up s0 with
